@@ -225,6 +225,10 @@ def _isinstance(eng, v, names):
              "set": {"set"}, "dict": {"dict"}, "int": {"int"}, "bool": {"bool", "int"}, "none": set()}
     if k in table:
         return z3.BoolVal(bool(table[k] & set(names)))
+    if v.t == ("opaque", "Ast"):
+        # class membership of an ast node: one uninterpreted predicate per class name (the classes partition as in the interpreter's grammar;
+        # only what the contracts state about them is used)
+        return z3.Or(*[z3.Function("ast_is_" + n.replace(".", "_"), v.x.sort(), z3.BoolSort())(v.x) for n in sorted(names)])
     raise OutOfSubset(f"isinstance on {v.t}")
 
 
